@@ -669,12 +669,12 @@ def walk_ir(x, f):
 
 def loop_writes(c, loop):
     """(scalar locals a loop may change, out-pointers it writes through, may it return?)"""
-    changed, derefs, rets = set(), set(), [False]
+    changed, derefs, rets = set(), set(), []
 
     def f(n):
         k = n[0]
         if k == 'ret':
-            rets[0] = True
+            rets.append(n[1] if len(n) > 1 else None)
         elif k == 'bin' and len(n) == 4 and isinstance(n[1], str) and n[1].endswith('=') and n[1] not in ('==', '!=', '<=', '>='):
             t = n[2]
             if t[0] == 'var':
@@ -686,7 +686,7 @@ def loop_writes(c, loop):
         elif k == 'refarg' and len(n) >= 2:
             changed.add(n[1] if isinstance(n[1], str) else (n[1][1] if isinstance(n[1], tuple) and n[1][0] == 'var' else '?'))
     walk_ir(loop, f)
-    return changed, derefs, rets[0]
+    return changed, derefs, rets
 
 
 def havoc_loop(c, s, rest, k_fall, k_break):
@@ -707,7 +707,16 @@ def havoc_loop(c, s, rest, k_fall, k_break):
     if may_ret:
         ex, rv = 'hv%d_loop_returns' % n, 'hv%d_loop_rv' % n
         c.extern(ex, 'bool')
-        c.extern(rv, 'R')
+        vals = set()
+        for r in may_ret:
+            try:
+                vals.add(as_bool(c, r) if c.ret_bool else as_N(c, r))
+            except Exception:
+                vals.add(None)
+        if len(vals) == 1 and None not in vals and re.fullmatch(r'\d+|true|false', list(vals)[0]):
+            rv = list(vals)[0]              # every `return` inside the loop returns the same constant
+        else:
+            c.extern(rv, 'R')
         inner = '(if %s then %s else %s)' % (ex, rv, inner)
     return inner
 
